@@ -60,20 +60,45 @@ class Registry(object):
                 return k
         return None
 
-    def method(self, cls, name):
-        """contract of method `name` for a receiver of static class `cls`: a variant 'qual@Cls' specialised for the receiver
-        class (or one of its bases) wins over the generic contract of the declaring class"""
+    def method(self, cls, name, args=None):
+        """contract of method `name` for a receiver of static class `cls`.  Variants 'qual@Tag': a class tag specialises the
+        contract for receivers of that class; any other tag is a variant by argument sorts (chosen by the sorts of `args`)."""
         mro = self.mro(cls)
-        for c in mro:
-            for ct in self.by_base.get(name, []):
-                if '@' in ct.qual and ct.qual.split('@')[1] == c:
-                    return ct
-        for c in mro:
-            for ct in self.by_base.get(name, []):
-                parts = ct.qual.split('.')
-                if '@' not in ct.qual and len(parts) >= 2 and parts[-2] == c:
-                    return ct
-        return None
+        known = set(self.program.classes) | set(self.classes)
+        best = None
+        for ct in self.by_base.get(name, []):
+            q, _, tag = ct.qual.partition('@')
+            parts = q.split('.')
+            if len(parts) < 2 or parts[-2] not in mro:
+                continue
+            rank = [mro.index(parts[-2]), 1]
+            if tag:
+                if tag in known:
+                    if tag not in mro:
+                        continue
+                    rank = [mro.index(tag), 0]
+                elif args is not None and not self.args_fit(ct, args):
+                    continue
+                elif args is None:
+                    continue
+            if best is None or rank < best[0]:
+                best = (rank, ct)
+        return best[1] if best else None
+
+    @staticmethod
+    def args_fit(ct, args):
+        from .sorts import SeqT, RefT, NONE, MapT, SetT, PyVal
+        params = [p for p in ct.params if not p[0].startswith('*')]
+        for p, a in zip(params[1:], args):
+            ps, as_ = p[1], getattr(a, 'sort', None)
+            if ps is None or isinstance(ps, PyVal) or as_ is None:
+                continue
+            for kind in (SeqT, RefT, MapT, SetT):
+                if isinstance(ps, kind) != isinstance(as_, kind) and not (as_ == NONE and isinstance(ps, RefT)):
+                    return False
+            if (ps == NONE) != (as_ == NONE) and not isinstance(ps, RefT):
+                return False
+        return True
 
     def function(self, name, module=None):
         """module-level function contract by basename (optionally inside dotted module prefix)"""
